@@ -148,7 +148,10 @@ def gen(seed, thorough=False):
                 d = rng.choice(cands)
                 vol = rng.choice([1, 1, 3, 40, 3000, 70000, 262144])
                 unit = rng.choice(['noise\n', 'x', 'éè noise 中\n', 'a b c\n',
-                                   '7 0 0\n', '1 2 3 4\n', '12 abc 3\n', '\n', '1 0\n'])
+                                   '7 0 0\n', '1 2 3 4\n', '12 abc 3\n', '\n', '1 0\n',
+                                   # lines that only BEGIN like a header
+                                   '1 2 3 4 5\n', '3 2 1 0 liftoff\n',
+                                   '2026 09 30 12:00:01 starting\n', '1 2 3 4x\n'])
                 text = (unit * (vol // len(unit) + 1))[:vol]
                 if unit in ('7 0 0\n', '1 2 3 4\n'):
                     text = unit
